@@ -588,6 +588,8 @@ class StmtMixin:
 
     def ex_For(self, s):
         it = self.ev(s.iter)
+        if it.k == 'obj' and '__store__' in self.st.heap[it.t].f:
+            it = self.st.heap[it.t].f['__store__']
         if it.k == 'obj':
             it = self.iter_object(it, s)
         if it.k == 'list' and isinstance(self.st.heap[it.t], HSeqList):
